@@ -31,7 +31,7 @@ func init() {
 		ID:     "C02",
 		Word32: true,
 		Level:  "exploration",
-		Rule: "E1 bounded-exhaustive enumeration: every bitmap of B(n,0) ∪ B1(m) (as C01) plus long sparse bitmaps (exactly L words, all zero except ≤2-3 islands from a 10-word island alphabet of popcounts 1,2,31,32,33,63,64 at every combination of positions, L up to 70, thorough 130) a length sweep (every length 0..N words × 4 patterns, with every returned index re-checked after the next bitmap has been indexed) and the byte-lane sweep (every byte value in every lane under every 0x00/0xff configuration of the other lanes, deduplicated, embedded as [w], [0,w] and [^0,w,0,1]) " +
+		Rule: "POPULATION CLASSES: the same ~9000 single words as C01/C12 alone, behind an all-ones word, between an empty and a sparse word and repeated 33 times: both indexes and both selects for every 1-bit; then E1 bounded-exhaustive enumeration: every bitmap of B(n,0) ∪ B1(m) (as C01) plus long sparse bitmaps (exactly L words, all zero except ≤2-3 islands from a 10-word island alphabet of popcounts 1,2,31,32,33,63,64 at every combination of positions, L up to 70, thorough 130) a length sweep (every length 0..N words × 4 patterns, with every returned index re-checked after the next bitmap has been indexed) and the byte-lane sweep (every byte value in every lane under every 0x00/0xff configuration of the other lanes, deduplicated, embedded as [w], [0,w] and [^0,w,0,1]) " +
 			"× {IndexSelect32, IndexSelect32R64} and × every i in [0, ones) × {Select32, Select32R64}; oracle = list of 1-positions from a bit-by-bit scan. " +
 			"A case is one (bitmap, i, function) or (bitmap, index function); non-trivial when the bitmap has ≥2 ones and at least one 0. i ≥ ones is outside the statement and not called.",
 		Assumptions: []string{
@@ -228,6 +228,31 @@ func c02OneNamed(c *mc.Ctx, order int64, w []uint64, ones []int32, nameLen, name
 }
 
 func c02Run(c *mc.Ctx) {
+	// POPULATION CLASSES of one word (c12PopWords: every word with one or two 0-bits, 0-runs cut at boundary
+	// positions, complements, every popcount): alone, behind an all-ones word, between an empty word and a
+	// sparse one, and repeated 33 times (samples inside dense words) - an implementation may select inside
+	// dense, ordinary and sparse words differently
+	{
+		pw := c12PopWords()
+		for _, x := range pw {
+			// per bitmap 2 index cases + 2 selects per 1-bit; the four bitmaps hold pop, 64+pop, pop+1, 33·pop ones
+			c.Expect(8 + 2*(36*int64(naivePop(x))+65))
+		}
+		c.Par(len(pw), func(i int) {
+			var ev, nt int64
+			rep := make([]uint64, 33)
+			for k := range rep {
+				rep[k] = pw[i]
+			}
+			for v, w := range [][]uint64{{pw[i]}, {^uint64(0), pw[i]}, {0, pw[i], 1 << 40}, rep} {
+				e, n, _ := c02One(c, 21<<50|int64(i)<<2|int64(v), w, nil)
+				ev += e
+				nt += n
+			}
+			c.Count(ev, nt)
+			c.Add("population_class_bitmaps", 4)
+		})
+	}
 	// the EMPTY bitmap in every form a caller can hand it over: both index builders owe the empty select
 	// index and (R64) the one-entry rank index for each of them
 	for f := 0; f < gen.EmptyForms; f++ {
